@@ -8,7 +8,7 @@ import io
 import re
 
 from .. import coqbuild, irtools as T
-from ..common import GLOBAL_TRUSTED_BASE
+from ..common import CORPUS_SEED, GLOBAL_TRUSTED_BASE
 from ..model import call_many
 from ..normtools import enc_def, enc_typ
 from ..pool import guarded, run_cases
@@ -238,17 +238,21 @@ def action_obs(ir):
 
 
 def worker(batch):
-    out = {"n": 0, "exec": 0, "items": [], "corr": []}
+    out = {"n": 0, "exec": 0, "items": [], "corr": [], "corpus_keys": []}
     for ir in batch:
+        cid = None
+        if isinstance(ir, tuple):       # an entry of the fixed corpus
+            cid, ir = ir
+            out["corpus_keys"].append(cid)
         out["n"] += 1
         st, v = guarded(check_case, ir, 120)
         if st != "ok":
-            out["items"].append(("C04/harness/" + st, {"detail": v}, ir))
+            out["items"].append(("C04/harness/" + st, {"detail": v, "corpus_key": cid}, ir))
             continue
         items, nexec = v
         out["exec"] += nexec
         for cls, det in items:
-            out["items"].append((cls, det, ir))
+            out["items"].append((cls, dict(det, corpus_key=cid) if isinstance(det, dict) else det, ir))
         # model correspondence: argparse actions
         names, qs = [], []
         for name, p in ir["params"].items():
@@ -270,6 +274,7 @@ def worker(batch):
 def collect(ctx, n_ir, _unused=0):
     rng = ctx.rng
     irs = [gen_ir(rng) for _ in range(n_ir)]
+
     # corpus: `str` / a string Literal nested two levels deep in the type, with a string default (whether the default is written as a
     # string constant is decided by looking for `str` INSIDE the type)
     from collections import OrderedDict
@@ -277,14 +282,19 @@ def collect(ctx, n_ir, _unused=0):
                       ("Dict[str, Optional[str]]", T.NoneStr)):
         irs.append({"name": "Thing", "doc": "Thing description.", "returns": None,
                     "params": OrderedDict((("alpha", {"typ": "int", "doc": "the value", "default": 5}), ("mode", {"typ": typ, "doc": "first item to use", "default": dflt})))})
+    import random as _random
+    crng = _random.Random(CORPUS_SEED)
+    corpus_irs = [("c%d" % i, gen_ir(crng)) for i in range(300)]
+    irs_all = corpus_irs[: (20 if n_ir < 200 else 300)] + irs
     agg = {"n": 0, "exec": 0}
     items, corr = [], []
-    for r in run_cases(worker, [irs[i:i + 5] for i in range(0, len(irs), 5)], chunk=1):
+    for r in run_cases(worker, [irs_all[i:i + 5] for i in range(0, len(irs_all), 5)], chunk=1):
         if "harness_error" in r:
             items.append(("C04/harness/error", {"detail": r}, None))
             continue
-        for k in agg:
+        for k in [k_ for k_ in agg if k_ != "corpus_keys"]:
             agg[k] += r[k]
+        agg.setdefault("corpus_keys", []).extend(r.get("corpus_keys", []))
         items += r["items"]
         corr += r["corr"][:3]
     return agg, items, corr, irs
@@ -295,7 +305,7 @@ def run(ctx):
     agg, items, corr, irs = collect(ctx, 50 if ctx.quick else 2100)
     for cls, det, ir in items:
         ctx.item(cls, {"stage": "exec() of the emitted source in a scratch namespace", "clause": cls, "input": T.jsonable(ir) if ir else None,
-                       "detail": det})
+                       "detail": det}, corpus_key=det.get("corpus_key") if isinstance(det, dict) else None)
     if not ctx.violations:
         if corr:
             ctx.violation({"stage": "correspondence: Model/Exec.v argparse_action vs live ArgumentParser", "detail": corr[:3],
